@@ -513,7 +513,7 @@ pub fn run(ctx: &Ctx) -> i32 {
     }
     acc.finish(
         "exploration",
-        "workspaces on disk with a pre-existing sentinel target: accepted G-wt programs (1/5), the same with one injected error of a chosen phase (lexical, syntax, missing import, import cycle, resolution, duplicate, type, cycle, evaluation: invalid status / malformed annotation YAML) in the main or an imported module at a random statement position (3/5), exploration cases (1/5); options vs --conf file, with/without base; per workspace: real oal-cli exit status, stderr report location, target bytes/inode/mtime, agreement with the library pipeline, the playground entry point (single module) and the language server load/eval/diagnostics cycle; plus four configuration failures; non-trivial = every workspace; distinct by (sources, configuration)",
+        "workspaces on disk with a pre-existing sentinel target: accepted G-wt programs (1/5), the same with one injected error of a chosen phase (lexical, syntax, missing import, import cycle, resolution, duplicate, type, cycle, evaluation: invalid status / malformed annotation YAML) in the main or an imported module at a random statement position (3/5), exploration cases (1/5); options vs --conf file, with/without base; per workspace: real oal-cli exit status, stderr report location, target bytes/inode/mtime, agreement with the library pipeline, the playground entry point (single module) and the language server load/eval/diagnostics cycle; plus four configuration failures; options given together with a configuration file that names another target and a bogus main (options take precedence); half of the language-server sessions have a second workspace folder with a broken program of its own; plus recorded language-server sessions over C15's histories (no fresh server): the error the library pipeline locates in the current texts must be among the diagnostics published for the document of its module, with exactly the range of its span in the client's text; non-trivial = every workspace; distinct by (sources, configuration)",
         if ctx.quick() { 200 } else { 2000 },
         false,
         &["the located-report check parses ariadne's header line; configuration failures need no location"],
